@@ -548,7 +548,34 @@ pub fn replay(behaviours: &str, k: usize, random_maps: usize, trace: &mut Ndjson
                     json!({"v": findings_json(fv), "o": findings_json(fo), "q": findings_json(fq)}),
                 );
             }
-            // (the file as left by the second run is the one that is read back below)
+            // ... and over a report of exactly the SAME length with other content (same findings in a file of another
+            // name, lines one further down): a size comparison must not pass for "already written"
+            let flipped: String = clean_text
+                .chars()
+                .map(|c| match c {
+                    '0'..='8' => ((c as u8) + 1) as char,
+                    '9' => '0',
+                    'a'..='y' | 'A'..='Y' => ((c as u8) + 1) as char,
+                    'z' => 'a',
+                    'Z' => 'A',
+                    _ => c,
+                })
+                .collect();
+            let _ = std::fs::write("solstat_report.md", &flipped);
+            let (a, b, c) = (vul_map(fv), opt_map(fo), qa_map(fq));
+            if guarded(move || generate_report(a, b, c)).is_err() {
+                out.violate("generate-report-panic", "generate_report panicked over an existing report".into(), json!({"v": findings_json(fv), "o": findings_json(fo), "q": findings_json(fq)}));
+                continue;
+            }
+            let text = std::fs::read_to_string("solstat_report.md").unwrap_or_default();
+            if text != clean_text {
+                out.violate(
+                    "nondeterministic:file:previous-report-of-same-length",
+                    format!("generate_report over an existing report of the same length ({} bytes) but other content does not leave the report a clean directory gets", clean_text.len()),
+                    json!({"v": findings_json(fv), "o": findings_json(fo), "q": findings_json(fq)}),
+                );
+            }
+            // (the file as left by the last run is the one that is read back below)
             let parts = reader.parse_file(&text);
             out.evaluations += 1;
             let mut present = serde_json::Map::new();
